@@ -840,7 +840,6 @@ def _rect_case(ctx, k):
     ctx.count(f"rect_ok_{kind}_{method}_cm{'<=nc' if cm <= nc else '>nc'}_npmax{npmax}")
 # --- default values as regenerated obligations (Generated/Defaults.lean <- harness/translate_defaults.py; stream defaults[...])
 import defaults_stream  # noqa: E402
-from common import all_pre_build as pre_build  # noqa: E402,F401,F811  (runs EVERY translate_*.py)
 LEAN_MODULES += ["PyomaVerif.Props.WiringDefaultsC07"]
 THEOREMS += ["PV.WiringDefaults.C07_defaults"]
 
